@@ -15,6 +15,7 @@
 #include "../MatOp/internal/ArnoldiOp.h"
 #include "../Util/TypeTraits.h"
 #include "../Util/SimpleRandom.h"
+#include "../Util/VerifHook.h"
 #include "UpperHessenbergQR.h"
 #include "DoubleShiftQR.h"
 
@@ -31,6 +32,7 @@ template <typename Scalar, typename ArnoldiOpType>
 class Arnoldi
 {
 private:
+    SPECTRA_VERIF_FRIEND
     // The real part type of the matrix element
     using RealScalar = typename Eigen::NumTraits<Scalar>::Real;
     using Index = Eigen::Index;
@@ -103,11 +105,14 @@ protected:
                 count++;
             }
 
+            if (ortho_err < m_eps * fnorm)
+                SPECTRA_VERIF_EVENT("ExpandBasis", this, (long long) V.cols(), (long long) seed, (long long) iter, 1, (long long) op_counter);
             // If the condition is satisfied, simply return
             // Otherwise, go to the next iteration and try a new random vector
             if (ortho_err < m_eps * fnorm)
                 return;
         }
+        SPECTRA_VERIF_EVENT("ExpandBasis", this, (long long) V.cols(), (long long) seed, 5, 0, (long long) op_counter);
     }
 
 public:
@@ -177,11 +182,14 @@ public:
 
         // Indicate that this is a step-1 factorization
         m_k = 1;
+        SPECTRA_VERIF_EVENT("FacInit", this, (long long) m_k, (long long) op_counter);
     }
 
     // Arnoldi factorization starting from step-k
     virtual void factorize_from(Index from_k, Index to_m, Index& op_counter)
     {
+        if (to_m <= from_k)
+            SPECTRA_VERIF_EVENT("FacNoop", this, (long long) from_k, (long long) to_m, (long long) m_k);
         using std::sqrt;
 
         if (to_m <= from_k)
@@ -189,6 +197,7 @@ public:
 
         if (from_k > m_k)
         {
+            SPECTRA_VERIF_EVENT("FacThrow", this, (long long) from_k, (long long) to_m, (long long) m_k);
             std::string msg = "Arnoldi: from_k (= " + std::to_string(from_k) +
                 ") is larger than the current subspace dimension (= " + std::to_string(m_k) + ")";
             throw std::invalid_argument(msg);
@@ -204,9 +213,11 @@ public:
         m_fac_H.rightCols(m_m - from_k).setZero();
         m_fac_H.block(from_k, 0, m_m - from_k, from_k).setZero();
 
+        SPECTRA_VERIF_EVENT("FacBegin", this, (long long) from_k, (long long) to_m, (long long) m_k, (long long) op_counter);
         for (Index i = from_k; i <= to_m - 1; i++)
         {
             bool restart = false;
+            SPECTRA_VERIF_EVENT_AT_EXIT("FacStep", this, (long long) (i + 1), (long long) restart, (long long) op_counter);
             // If beta = 0, then the next V is not full rank
             // We need to generate a new residual vector that is orthogonal
             // to the current V, which we call a restart
@@ -277,6 +288,7 @@ public:
 
         // Indicate that this is a step-m factorization
         m_k = to_m;
+        SPECTRA_VERIF_EVENT("FacDone", this, (long long) from_k, (long long) to_m, (long long) m_k, (long long) op_counter);
     }
 
     // Apply H -> Q'HQ, where Q is from a double shift QR decomposition
@@ -284,6 +296,7 @@ public:
     {
         decomp.matrix_QtHQ(m_fac_H);
         m_k -= 2;
+        SPECTRA_VERIF_EVENT("CompressH", this, 2, (long long) m_k);
     }
 
     // Apply H -> Q'HQ, where Q is from an upper Hessenberg QR decomposition
@@ -291,6 +304,7 @@ public:
     {
         decomp.matrix_QtHQ(m_fac_H);
         m_k--;
+        SPECTRA_VERIF_EVENT("CompressH", this, 1, (long long) m_k);
     }
 
     // Apply V -> VQ and compute the new f.
@@ -321,6 +335,7 @@ public:
         Vector fk = m_fac_f * Q(m_m - 1, m_k - 1) + m_fac_V.col(m_k) * m_fac_H(m_k, m_k - 1);
         m_fac_f.swap(fk);
         m_beta = m_op.norm(m_fac_f);
+        SPECTRA_VERIF_EVENT("CompressV", this, (long long) m_k);
     }
 };
 
